@@ -307,6 +307,38 @@ def TABLES():
     out.append('/-- every public method that builds its answer with make_allfunc: (method, scope of the process list, predicate, the')
     out.append('    single-process method applied to each eligible process, keyword arguments passed through) -/')
     out.append('def callers : List (String × String × String × String × List String) := [\n  ' + ',\n  '.join(rows) + ']')
+
+    # ---- the three single-process methods hand `group:*` / `group:` over to the group form: which parameter of the group method
+    #      receives what ("group" = the group part of the namespec, otherwise the caller's own parameter of that name)
+    methods = {f.name: f for f in cls.body if isinstance(f, ast.FunctionDef)}
+    drows = []
+    for single in ('startProcess', 'stopProcess', 'signalProcess'):
+        f = methods.get(single)
+        own = [a.arg for a in f.args.args[1:]] if f is not None else []
+        found = []
+        for n in (ast.walk(f) if f is not None else []):
+            if isinstance(n, ast.If) and ast.unparse(n.test) == 'process is None':
+                for r in ast.walk(n):
+                    if isinstance(r, ast.Return) and isinstance(r.value, ast.Call) and isinstance(r.value.func, ast.Attribute) \
+                            and ast.unparse(r.value.func.value) == 'self':
+                        found.append(r.value)
+        if len(found) != 1 or found[0].func.attr not in methods:
+            drows.append('(%s, "?", [])' % lean_str(single))
+            continue
+        call = found[0]
+        params = [a.arg for a in methods[call.func.attr].args.args[1:]]
+        bound = [(params[i] if i < len(params) else '?%d' % i, a) for i, a in enumerate(call.args)] + [(k.arg or '**', k.value) for k in call.keywords]
+        def what(e):
+            u = ast.unparse(e)
+            if u in ('group_name', 'group.config.name', 'split_namespec(name)[0]'):
+                return 'group'
+            return u if isinstance(e, ast.Name) and u in own else '?' + u
+        drows.append('(%s, %s, [%s])' % (lean_str(single), lean_str(call.func.attr),
+                                         ', '.join('(%s, %s)' % (lean_str(pn), lean_str(what(e))) for pn, e in bound)))
+    out.append('/-- how startProcess / stopProcess / signalProcess pass a `group:*` or `group:` namespec on (the branch `process is None`):')
+    out.append('    (method, group method called, (parameter of the group method, what it receives: "group" = the group part of the namespec,')
+    out.append('    otherwise the caller\'s own parameter of that name); a parameter that is not listed keeps its default -/')
+    out.append('def delegations : List (String × String × List (String × String)) := [\n  ' + ',\n  '.join(drows) + ']')
     return out
 
 
